@@ -83,7 +83,7 @@ def run(chk):
             return ""
         ov, oo = origin_[nm]
         return forms.Normalizer(it, oo).value_atom(ov)
-    for e, o in C.all_calls(outs, lambda e: "IndexMut" in (e[2] or "") and len(e[3]) > 1 and e[3][1][0] == "expr"):
+    for e, o in C.all_calls(outs, lambda e: "IndexMut" in (e[2] or "") and len(e[3]) > 1):
         nz = forms.Normalizer(it, o)
         f = C.show_arg(nz, e[3][1])
         arm = [c[2] for s, c in o.cons.items() if c[0] == "varis" and c[1].endswith("TagFeature")]
